@@ -12,7 +12,7 @@ pub fn obs_e(case: usize, k: &str, fall: bool, vin: usize, res: &str, variant: &
 
 
 def cform(v):
-    return {"hint_tuple": "tuple", "hint_struct": "named", "hint_unit": "unit"}.get(v["it"], v["shape"])
+    return {"hint_tuple": "tuple", "hint_tuple_ded": "tuple", "hint_struct": "named", "hint_unit": "unit"}.get(v["it"], v["shape"])
 
 
 def mapped(v):
@@ -77,7 +77,8 @@ def program(ci, c):
                     a = f"#[ghost({{gh2({i},{j})}})]"
                 fa.append(a)
             va = {"none": "", "ren": f"#[map(RV{i})]", "ghostd": f"#[ghost({{DI::Gd({i})}})]", "ghost": "#[ghost]", "hint_tuple": "#[type_hint(as ())]",
-                  "hint_struct": "#[type_hint(as {})]", "hint_unit": "#[type_hint(as Unit)]"}[v["it"]]
+                  "hint_struct": "#[type_hint(as {})]", "hint_unit": "#[type_hint(as Unit)]",
+                  "hint_tuple_ded": "#[type_hint(as Unit)] #[type_hint(D| as ())] #[type_hint(DI| as ())]"}[v["it"]]
             if v["shape"] == "unit":
                 body = f"V{i}"
             elif v["shape"] == "named":
